@@ -318,16 +318,16 @@ type DeviceMapping struct {
 
 // WeightDevice is a structure that holds device:weight pair
 type WeightDevice struct {
-	Path   string
-	Weight uint16
+	Path   string `yaml:"path" json:"path"`
+	Weight uint16 `yaml:"weight" json:"weight"`
 
 	Extensions Extensions `yaml:"#extensions,inline,omitempty" json:"-"`
 }
 
 // ThrottleDevice is a structure that holds device:rate_per_second pair
 type ThrottleDevice struct {
-	Path string
-	Rate UnitBytes
+	Path string    `yaml:"path" json:"path"`
+	Rate UnitBytes `yaml:"rate" json:"rate"`
 
 	Extensions Extensions `yaml:"#extensions,inline,omitempty" json:"-"`
 }
